@@ -446,9 +446,13 @@ def run_c11(tier, replay):
 
 # ----------------------------------------------------------------------------- C18
 
-def _ctx_cfg(ids, maxlen, maxw, hist='FALSE', pop='TRUE', dup='TRUE', inv=(), spec=True):
+REAL_PATIENCE = 4      # busy workers a context helper waits out (1 s each) before the server's 5 s are over
+
+
+def _ctx_cfg(ids, maxlen, maxw, hist='FALSE', pop='TRUE', dup='TRUE', inv=(), spec=True, patience=1, hk='TRUE', profile='free'):
     s = ('SPECIFICATION Spec\n' if spec else 'INIT Init\nNEXT Next\n')
-    s += 'CONSTANTS\n  Ids <- %s\n  MaxLen = %d\n  MaxW = %d\n  Hist = %s\n  PopOnDelete = %s\n  DupCheck = %s\n' % (ids, maxlen, maxw, hist, pop, dup)
+    s += ('CONSTANTS\n  Ids <- %s\n  MaxLen = %d\n  MaxW = %d\n  Hist = %s\n  PopOnDelete = %s\n  DupCheck = %s\n  Patience = %d\n  HandlerKills = %s\n  Profile = "%s"\n'
+          % (ids, maxlen, maxw, hist, pop, dup, patience, hk, profile))
     for i in inv:
         s += 'INVARIANT %s\n' % i
     return s + 'CHECK_DEADLOCK FALSE\n'
@@ -463,6 +467,7 @@ def c18_features(hist, reps):
     f = set()
     dup_ids, deleted, started_in = set(), set(), {}
     registered = set()
+    busy, busy_ctx = set(), {}
     prev = None
     for n, (q, a) in enumerate(zip(hist, reps)):
         op = q['op']
@@ -515,6 +520,17 @@ def c18_features(hist, reps):
         elif op == 'wait':
             f.add('wait')
             started_in.pop(q['w'], None)
+        elif op == 'busy':
+            f.add('busy')
+            busy.add(q['w'])
+        if op == 'delete' and q['k'] == 'T':
+            nb = len([w for w in busy if busy_ctx.get(w) == q['id']])
+            if nb:
+                f.add('delete-with-busy')
+            if nb > REAL_PATIENCE:
+                f.add('delete-forced')
+        if op == 'start' and a == 'started':
+            busy_ctx[q['w']] = q['id']
     return f
 
 
@@ -537,7 +553,7 @@ def c18_select(paths, k, rng):
         chosen.append(pool[best])
         count.update(feats[best])
     # request shapes the client API never produces by itself are always played, several times
-    for must, times in (('first-delete-unknown', 3), ('delete-unknown-after-dup', 3), ('start-in-deleted', 2)):
+    for must, times in (('first-delete-unknown', 3), ('delete-unknown-after-dup', 3), ('start-in-deleted', 2), ('delete-with-busy', 2)):
         for i, fs in enumerate(feats):
             if count[must] >= times:
                 break
@@ -595,16 +611,20 @@ def run_c18(tier, replay):
     # 0. the design (concurrently): refinement of the dictionary model over every history; record operators
     #    on every short history; witnesses; mutant algorithms rejected
     wit = ['W_NoDuplicate', 'W_NoOrphan', 'W_NoReuse', 'W_NoUnknownStart', 'W_NoUnknownDelete', 'W_NoDeleteWithWorkers',
-           'W_NoCallAfterDup', 'W_NoTwoContexts']
+           'W_NoCallAfterDup', 'W_NoTwoContexts', 'W_NoForcedDelete', 'W_NoBusyRegular']
     design = Jobs()
     big = ('Ids3', 8, 3) if tier == 'thorough' else ('Ids3', 7, 2)
     design.start('mc', lambda: tlc.run('ServerCtxMC', cfg_text=_ctx_cfg(*big, inv=C18_REF), workers=8, name='ctxmc', timeout=3000))
     design.start('hist', lambda: tlc.run('ServerCtxMC', 'ServerCtx_hist.cfg', workers=4, name='ctxhist', timeout=1500))
+    # forced delete path (two busy workers against an abstract patience of 1) with the record operators
+    design.start('hist6', lambda: tlc.run('ServerCtxMC', cfg_text=_ctx_cfg('Ids1', 7, 3, hist='TRUE', inv=C18_REF + C18_REC), workers=2,
+                                          name='ctxhist6', timeout=1500))
     design.start('wits', lambda: {w: tlc.run('ServerCtxMC', cfg_text=_ctx_cfg('Ids2', 6, 2, inv=(w,)), workers=1, name=w,
                                              must_complete=False, timeout=600) for w in wit})
-    design.start('muts', lambda: {m: tlc.run('ServerCtxMC', cfg_text=_ctx_cfg('Ids2', 5, 2, hist='TRUE', inv=C18_REC, **kw), workers=1,
+    design.start('muts', lambda: {m: tlc.run('ServerCtxMC', cfg_text=_ctx_cfg(ids_, len_, 2, hist='TRUE', inv=C18_REC, **kw), workers=1,
                                              name='mut' + m, must_complete=False, timeout=600)
-                                  for m, kw in (('no_pop', {'pop': 'FALSE'}), ('no_dupcheck', {'dup': 'FALSE'}))})
+                                  for m, ids_, len_, kw in (('no_pop', 'Ids2', 5, {'pop': 'FALSE'}), ('no_dupcheck', 'Ids2', 5, {'dup': 'FALSE'}),
+                                                            ('handler_kills_nothing', 'Ids1', 6, {'hk': 'FALSE'}))})
 
     # 1. TLC generates the histories (simulation: length 8, 3 ids, 3 workers; the record operators are
     #    evaluated on every simulated state); the tap records the bytes of a worker-in-context request
@@ -614,8 +634,20 @@ def run_c18(tier, replay):
     jobs.start('sim', lambda: tlc.run('ServerCtxMC', cfg_text=_ctx_cfg('Ids3', 8, 3, hist='TRUE', inv=('PathDump',) + C18_REC, spec=False),
                                       workers=1, simulate='num=%d' % nsim, depth=45, seed=seed(), name='ctxsim',
                                       must_complete=False, timeout=1500))
+    # the scripted profile: one context, 7 workers, each given a blocking job, then the delete - the helper's clean-up
+    # overruns the server's 5 s and the forced path (SIGTERM to the helper, its handler kills the rest) is taken
+    jobs.start('many', lambda: tlc.run('ServerCtxMC', cfg_text=_ctx_cfg('Ids1', 17, 7, hist='TRUE', inv=('PathDump',) + C18_REF + C18_REC,
+                                                                       patience=REAL_PATIENCE, profile='manybusy'),
+                                       workers=1, name='ctxmany', timeout=900))
     res = jobs.wait()
     streams, pos, lens = res['rec']
+    rmany = res['many']
+    if rmany.error or not rmany.tags.get('PATH'):
+        raise MachineryError('the many-busy-workers profile of ServerCtx.tla failed: %s\n%s' % (rmany.error, rmany.stdout[-1500:]))
+    ev.add_tlc('profile manybusy: create, 7 x start, 7 x busy, delete (forced path, Patience=%d), then free' % REAL_PATIENCE, rmany)
+    many = {}
+    for h, r_, lv in rmany.tags['PATH']:
+        many[h] = (json.loads(h), json.loads(r_), json.loads(lv))
     rs = res['sim']
     if rs.error or not rs.tags.get('PATH'):
         raise MachineryError('simulation of context histories failed: %s\n%s' % (rs.error, rs.stdout[-1500:]))
@@ -625,10 +657,15 @@ def run_c18(tier, replay):
         paths[h] = (json.loads(h), json.loads(r_), json.loads(lv))
     k = 40 if tier == 'quick' else 600
     chosen, featcount = c18_select(paths.values(), k, rng)
+    extra = sorted(many.values(), key=lambda t: json.dumps(t[0]))[:(1 if tier == 'quick' else 4)]
+    chosen = extra + chosen          # first: they take longest
+    for h_, r_, _ in extra:
+        for x_ in c18_features(h_, r_):
+            featcount[x_] = featcount.get(x_, 0) + 1
     tasks = [dict(id='h%d' % i, hist=h, idmap=c18_idmap(h, mr_, i, tier), upayload=streams['uctxworker'][1],
                   upos=[p for p in pos['uctxworker'] if p[0] == 1], logdir=logdir)
              for i, (h, mr_, _) in enumerate(chosen)]
-    recs = R.pool_map('scenario_c18', tasks, logdir, nproc=12)
+    recs = R.pool_map('scenario_c18', tasks, logdir, nproc=12, task_timeout=240)
     for x, (h, mr, ml) in zip(recs, chosen):
         x['model_rep'], x['model_live'] = mr, ml
 
@@ -642,6 +679,10 @@ def run_c18(tier, replay):
     ev.add_tlc('exhaustive with history: record operators C18_* on every history of length <= 5 over 2 ids', r)
     if r.error:
         raise MachineryError('ServerCtx.tla violates the C18 operators: %s\n%s' % (r.error, '\n'.join(r.trace[:80])))
+    r = dres['hist6']
+    ev.add_tlc('exhaustive with history: one context, <= 3 workers incl. blocking jobs, length <= 7: both delete paths, refinement + record operators', r)
+    if r.error:
+        raise MachineryError('ServerCtx.tla (forced delete path) violates the C18 operators: %s\n%s' % (r.error, '\n'.join(r.trace[:80])))
     for w in wit:
         if dres['wits'][w].error != 'invariant:' + w:
             raise MachineryError('witness %s not reachable (vacuous model): %s' % (w, dres['wits'][w].error))
